@@ -1881,4 +1881,300 @@ theorem reach_live (dec : Bytes → Bool) (M : Nat) (s : Sys) (pend : List Bytes
     omega
 
 
+/-- `try_read_delimited_message` on a well-formed stream (the blocking read
+    path calls it directly): either the oldest message with exactly its frame
+    removed, or nothing consumed -/
+theorem tryRead_fifo (dec : Bytes → Bool) (c : Chan) (T : Bytes) (pend : List Bytes) (h : ChanWF c)
+    (hs : c.front.data ++ T = flat pend) (hg : ∀ p ∈ pend, Good dec p) :
+    (∃ p pend', (c.tryRead dec).2 = .ok (some p) ∧ pend = p :: pend' ∧
+        (c.tryRead dec).1.front.data ++ T = flat pend') ∨
+    ((∀ m, (c.tryRead dec).2 ≠ .ok (some m)) ∧ (c.tryRead dec).1.front.data = c.front.data) := by
+  obtain ⟨_, _, hc⟩ := tryRead_cases dec c h
+  have nonempty : delim ≤ c.front.data.length → ∃ p rest, pend = p :: rest := by
+    intro h8
+    cases pend with
+    | nil =>
+      rw [flat_nil] at hs
+      have : c.front.data = [] := (List.append_eq_nil_iff.mp hs).1
+      rw [this] at h8; simp [delim] at h8
+    | cons p rest => exact ⟨p, rest, rfl⟩
+  generalize c.tryRead dec = x at hc
+  cases hc with
+  | msg c' len h8 hlen hlo hmax hhi hdec hdata =>
+    obtain ⟨p, rest, rfl⟩ := nonempty h8
+    have hgp := hg p (List.mem_cons_self ..)
+    have hl := head_len _ _ _ _ hs h8 hgp.2
+    rw [hl] at hlen; subst hlen
+    rw [flat_cons] at hs
+    obtain ⟨ht, hdrop⟩ := head_complete _ _ _ _ hs hhi
+    left
+    refine ⟨p, rest, by simp only [ht, frame_drop], rfl, ?_⟩
+    simp only [hdata]; exact hdrop
+  | under c' len h8 hlen hlt _ hdata =>
+    obtain ⟨p, rest, rfl⟩ := nonempty h8
+    have hl := head_len _ _ _ _ hs h8 (hg p (List.mem_cons_self ..)).2
+    omega
+  | tooLarge c' len h8 hlen hgt hsame =>
+    right
+    refine ⟨?_, by rw [hsame]⟩
+    intro m hm; cases hm
+  | invalid c' len h8 hlen hlo hmax hhi hdec hdata =>
+    obtain ⟨p, rest, rfl⟩ := nonempty h8
+    have hgp := hg p (List.mem_cons_self ..)
+    have hl := head_len _ _ _ _ hs h8 hgp.2
+    rw [hl] at hlen; subst hlen
+    rw [flat_cons] at hs
+    obtain ⟨ht, _⟩ := head_complete _ _ _ _ hs hhi
+    rw [ht, frame_drop, hgp.1] at hdec
+    cases hdec
+  | incomplete c' r hinc hr' hdata =>
+    right
+    refine ⟨?_, hdata⟩
+    intro m hm
+    rcases hr' with hr' | ⟨hr', _⟩ <;> rw [hr'] at hm <;> cases hm
+
+theorem breadLoop_spec (dec : Bytes → Bool) (closed : Bool) (fuel : Nat) (c : Chan) (rq T : Bytes)
+    (pend : List Bytes) (h : ChanWF c) (hs : c.front.data ++ (rq ++ T) = flat pend)
+    (hg : ∀ p ∈ pend, Good dec p) :
+    ChanStep c (breadLoop dec closed fuel c rq).1 ∧ (breadLoop dec closed fuel c rq).1.back = c.back ∧
+    ((∃ p pend', (breadLoop dec closed fuel c rq).2.2 = .ok p ∧ pend = p :: pend' ∧
+        (breadLoop dec closed fuel c rq).1.front.data ++ ((breadLoop dec closed fuel c rq).2.1 ++ T) = flat pend') ∨
+     ((∃ e, (breadLoop dec closed fuel c rq).2.2 = .error e) ∧
+        (breadLoop dec closed fuel c rq).1.front.data ++ ((breadLoop dec closed fuel c rq).2.1 ++ T) = flat pend)) := by
+  induction fuel generalizing c rq with
+  | zero => exact ⟨ChanStep.refl c, rfl, Or.inr ⟨⟨_, rfl⟩, hs⟩⟩
+  | succ f ih =>
+    obtain ⟨hstep, hback, _⟩ := tryRead_cases dec c h
+    have hfifo := tryRead_fifo dec c (rq ++ T) pend h hs hg
+    unfold breadLoop
+    rcases hx : c.tryRead dec with ⟨c1, r⟩
+    rw [hx] at hstep hback hfifo
+    simp only at hstep hback hfifo
+    have hwf1 := hstep.wf h
+    rcases r with e | (_ | m)
+    · -- error
+      rcases hfifo with ⟨p, pend', h1, _, _⟩ | ⟨_, h2⟩
+      · cases h1
+      · exact ⟨hstep, hback, Or.inr ⟨⟨e, rfl⟩, by simp only []; rw [h2]; exact hs⟩⟩
+    · -- nothing complete yet
+      have hsame : c1.front.data = c.front.data := by
+        rcases hfifo with ⟨p, pend', h1, _, _⟩ | ⟨_, h2⟩
+        · cases h1
+        · exact h2
+      simp only []
+      split
+      · exact ⟨hstep, hback, Or.inr ⟨⟨_, rfl⟩, by simp only []; rw [hsame]; exact hs⟩⟩
+      · split
+        · exact ⟨hstep, hback, Or.inr ⟨⟨_, rfl⟩, by simp only []; rw [hsame]; exact hs⟩⟩
+        · next hne hn =>
+          have hle : (rq.take (min c1.front.availSpace rq.length)).length ≤ c1.front.availSpace := by
+            simp only [List.length_take]; omega
+          have hwf2 : ChanWF { c1 with front := c1.front.fill (rq.take (min c1.front.availSpace rq.length)) } :=
+            ⟨wf_fill _ _ hwf1.1, hwf1.2⟩
+          have hs2 : ({ c1 with front := c1.front.fill (rq.take (min c1.front.availSpace rq.length)) } : Chan).front.data ++
+              (rq.drop (min c1.front.availSpace rq.length) ++ T) = flat pend := by
+            simp only [fill_data _ _ hwf1.1 hle, hsame, List.append_assoc]
+            rw [← List.append_assoc (List.take _ rq), List.take_append_drop]; exact hs
+          obtain ⟨i1, i2, i3⟩ := ih _ _ hwf2 hs2
+          refine ⟨?_, i2.trans hback, i3⟩
+          exact (hstep.trans (ChanStep.setFront _ _ (wf_fill _ _) (by rw [fill_cap]; exact Nat.le_max_left _ _))).trans i1
+    · -- a message
+      rcases hfifo with ⟨p, pend', h1, h2, h3⟩ | ⟨h1, _⟩
+      · cases h1
+        refine ⟨hstep.trans (step_tryShrinkFront _), by rw [tryShrinkFront_back]; exact hback, Or.inl ⟨m, pend', rfl, h2, ?_⟩⟩
+        simp only [tryShrinkFront_data]; exact h3
+      · exact absurd rfl (h1 m)
+
+theorem bwriteLoop_spec (sched : List Nat) (c : Chan) (acc : Bytes) (h : ChanWF c) :
+    ChanStep c (Sozu.Channel.bwriteLoop sched c acc).1 ∧ (bwriteLoop sched c acc).1.front = c.front ∧
+    (bwriteLoop sched c acc).2 ++ (bwriteLoop sched c acc).1.back.data = acc ++ c.back.data := by
+  fun_induction bwriteLoop sched c acc
+  · exact ⟨ChanStep.refl _, rfl, rfl⟩
+  · exact ⟨ChanStep.refl _, rfl, rfl⟩
+  · exact ⟨ChanStep.refl _, rfl, rfl⟩
+  · next c acc h0 k rest hk n ih =>
+    obtain ⟨i1, i2, i3⟩ := ih ⟨h.1, wf_consume _ _ h.2⟩
+    refine ⟨(ChanStep.setBack _ _ (wf_consume _ _) (by rw [consume_cap]; exact Nat.le_max_left _ _)).trans i1, i2, ?_⟩
+    rw [i3]
+    simp [consume_data _ _ h.2, List.append_assoc]
+
+def xwrittenOf : XOp → Out → List Bytes
+  | .base op, o => writtenOf op o
+  | .bwrite p _, .unit => [p]
+  | _, _ => []
+
+def xwritten : List XOp → List Out → List Bytes
+  | op :: ops, o :: os => xwrittenOf op o ++ xwritten ops os
+  | _, _ => []
+
+def xIsRaw : XOp → Bool
+  | .base op => isRaw op
+  | _ => false
+
+theorem xstep_sysStep (dec : Bytes → Bool) (s : Sys) (op : XOp) (h : SysWF s) :
+    SysStep s (xstep dec s op).1 := by
+  cases op with
+  | base op => exact step_sysStep dec s op h
+  | bread =>
+    -- capacity / bounds do not depend on the stream being well-formed: use the generic step lemmas
+    have key : ∀ (fuel : Nat) (c : Chan) (rq : Bytes), ChanWF c →
+        ChanStep c (breadLoop dec s.closed fuel c rq).1 ∧ (breadLoop dec s.closed fuel c rq).1.back = c.back := by
+      intro fuel
+      induction fuel with
+      | zero => intro c rq _; exact ⟨ChanStep.refl c, rfl⟩
+      | succ f ih =>
+        intro c rq hc
+        obtain ⟨hstep, hback, _⟩ := tryRead_cases dec c hc
+        unfold breadLoop
+        rcases hx : c.tryRead dec with ⟨c1, r⟩
+        rw [hx] at hstep hback
+        simp only at hstep hback
+        rcases r with e | (_ | m)
+        · exact ⟨hstep, hback⟩
+        · simp only []
+          split
+          · exact ⟨hstep, hback⟩
+          · split
+            · exact ⟨hstep, hback⟩
+            · obtain ⟨i1, i2⟩ := ih { c1 with front := c1.front.fill (rq.take (min c1.front.availSpace rq.length)) }
+                (rq.drop (min c1.front.availSpace rq.length)) ⟨wf_fill _ _ (hstep.wf hc).1, (hstep.wf hc).2⟩
+              exact ⟨(hstep.trans (ChanStep.setFront _ _ (wf_fill _ _) (by rw [fill_cap]; exact Nat.le_max_left _ _))).trans i1,
+                i2.trans hback⟩
+        · exact ⟨hstep.trans (step_tryShrinkFront _), by rw [tryShrinkFront_back]; exact hback⟩
+    obtain ⟨hs, _⟩ := key (s.rq.length + 66) s.r s.rq h.2
+    simp only [xstep]
+    rcases hr : breadLoop dec s.closed (s.rq.length + 66) s.r s.rq with ⟨r1, rq1, o⟩
+    rw [hr] at hs
+    rcases o with e | m <;> exact ⟨ChanStep.refl _, hs⟩
+  | bwrite p sched =>
+    obtain ⟨hs, _, _⟩ := writeDelimited_spec s.w p h.1
+    simp only [xstep]
+    rcases hr : s.w.writeDelimited p with ⟨w1, r1⟩
+    rw [hr] at hs
+    simp only at hs
+    rcases r1 with e | u
+    · exact ⟨hs, ChanStep.refl _⟩
+    · cases u
+      obtain ⟨h2, _, _⟩ := bwriteLoop_spec sched w1 [] (hs.wf h.1)
+      exact ⟨hs.trans h2, ChanStep.refl _⟩
+
+theorem xrun_sysStep (dec : Bytes → Bool) (s : Sys) (ops : List XOp) (h : SysWF s) :
+    SysStep s (xrun dec s ops).1 := by
+  induction ops generalizing s with
+  | nil => exact SysStep.refl s
+  | cons op ops ih =>
+    have h1 := xstep_sysStep dec s op h
+    simp only [xrun]
+    exact h1.trans (ih _ (h1.wf h))
+
+theorem xstep_fifo (dec : Bytes → Bool) (s : Sys) (op : XOp) (pend : List Bytes)
+    (h : Fifo dec s pend) (hraw : xIsRaw op = false)
+    (hop : ∀ p, (op = .base (.write p) ∨ ∃ sc, op = .bwrite p sc) → Good dec p) :
+    ∃ pend', Fifo dec (xstep dec s op).1 pend' ∧
+      pend ++ xwrittenOf op (xstep dec s op).2 = deliveredOf (xstep dec s op).2 ++ pend' := by
+  have hwf' := (xstep_sysStep dec s op h.wf).wf h.wf
+  cases op with
+  | base op =>
+    exact step_fifo dec s op pend h hraw (fun p hp => hop p (Or.inl (by rw [hp])))
+  | bread =>
+    have hst := h.stream
+    unfold Sys.stream at hst
+    obtain ⟨_, _, hd⟩ := breadLoop_spec dec s.closed (s.rq.length + 66) s.r s.rq
+      (s.wire ++ s.w.back.data) pend h.wf.2 hst h.good
+    simp only [xstep] at hwf' ⊢
+    rcases hr : breadLoop dec s.closed (s.rq.length + 66) s.r s.rq with ⟨r1, rq1, o⟩
+    rw [hr] at hd hwf'
+    simp only at hd
+    rcases o with e | m
+    · rcases hd with ⟨p, pend', h1, _, _⟩ | ⟨_, h2⟩
+      · cases h1
+      · exact ⟨pend, ⟨hwf', h2, h.good⟩, by simp [xwrittenOf, deliveredOf]⟩
+    · rcases hd with ⟨p, pend', h1, h2, h3⟩ | ⟨⟨e, h1⟩, _⟩
+      · cases h1
+        subst h2
+        exact ⟨pend', ⟨hwf', h3, fun q hq => h.good q (List.mem_cons_of_mem _ hq)⟩,
+          by simp [xwrittenOf, deliveredOf]⟩
+      · cases h1
+  | bwrite p sched =>
+    have hst := h.stream
+    unfold Sys.stream at hst
+    obtain ⟨hs, _, hd⟩ := writeDelimited_spec s.w p h.wf.1
+    simp only [xstep] at hwf' ⊢
+    rcases hr : s.w.writeDelimited p with ⟨w1, r1⟩
+    rw [hr] at hs hd hwf'
+    simp only at hs hd hwf'
+    rcases r1 with e | u
+    · rcases hd with ⟨h1, _⟩ | ⟨_, h2⟩
+      · cases h1
+      · refine ⟨pend, ⟨hwf', ?_, h.good⟩, by simp [xwrittenOf, deliveredOf]⟩
+        simp only [Sys.stream, h2]; exact hst
+    · cases u
+      simp only at hwf' ⊢
+      rcases hd with ⟨_, h2⟩ | ⟨h1, _⟩
+      · obtain ⟨_, _, h3⟩ := bwriteLoop_spec sched w1 [] (hs.wf h.wf.1)
+        simp only [List.nil_append] at h3
+        refine ⟨pend ++ [p], ⟨hwf', ?_, ?_⟩, by simp [xwrittenOf, deliveredOf]⟩
+        · simp only [Sys.stream, flat_append, flat_cons, flat_nil, List.append_nil]
+          rw [← hst, List.append_assoc s.wire, h3, h2]; simp [List.append_assoc]
+        · intro q hq
+          rcases List.mem_append.mp hq with hq | hq
+          · exact h.good q hq
+          · simp at hq; subst hq; exact hop _ (Or.inr ⟨sched, rfl⟩)
+      · cases h1
+
+theorem xrun_fifo (dec : Bytes → Bool) (s : Sys) (ops : List XOp) (pend : List Bytes)
+    (h : Fifo dec s pend) (hraw : ∀ op ∈ ops, xIsRaw op = false)
+    (hop : ∀ p, (XOp.base (.write p) ∈ ops ∨ ∃ sc, XOp.bwrite p sc ∈ ops) → Good dec p) :
+    ∃ pend', Fifo dec (xrun dec s ops).1 pend' ∧
+      pend ++ xwritten ops (xrun dec s ops).2 = delivered (xrun dec s ops).2 ++ pend' := by
+  induction ops generalizing s pend with
+  | nil => exact ⟨pend, h, by simp [xrun, xwritten, delivered]⟩
+  | cons op ops ih =>
+    obtain ⟨p1, f1, e1⟩ := xstep_fifo dec s op pend h (hraw op (List.mem_cons_self ..))
+      (by
+        intro p hp
+        apply hop p
+        rcases hp with hp | ⟨sc, hp⟩
+        · left; rw [hp]; exact List.mem_cons_self ..
+        · right; exact ⟨sc, by rw [hp]; exact List.mem_cons_self ..⟩)
+    obtain ⟨p2, f2, e2⟩ := ih _ p1 f1 (fun o ho => hraw o (List.mem_cons_of_mem _ ho))
+      (by
+        intro p hp
+        apply hop p
+        rcases hp with hp | ⟨sc, hp⟩
+        · left; exact List.mem_cons_of_mem _ hp
+        · right; exact ⟨sc, List.mem_cons_of_mem _ hp⟩)
+    refine ⟨p2, by simpa [xrun] using f2, ?_⟩
+    simp only [xrun, xwritten, delivered]
+    rw [← List.append_assoc, e1, List.append_assoc, e2, List.append_assoc]
+
+/-- the flush loop of a blocking write empties the back buffer when the kernel
+    accepts everything in one go -/
+theorem bwriteLoop_all (c : Chan) (k : Nat) (acc : Bytes) (h : ChanWF c) (hk : c.back.data.length ≤ k) :
+    (bwriteLoop [k] c acc).1.back.data = [] := by
+  obtain ⟨h1, h2, h3⟩ := h.2
+  unfold bwriteLoop
+  split
+  · next h0 =>
+    simp only [Buffer.availData] at h0
+    show c.back.data = []
+    exact List.eq_nil_of_length_eq_zero (by omega)
+  · next h0 =>
+    simp only []
+    split
+    · next hk0 => simp only [Buffer.availData] at h0; omega
+    · next hk0 =>
+      have hn : min k c.back.availData = c.back.data.length := by
+        simp only [Buffer.availData]; omega
+      rw [hn]
+      unfold bwriteLoop
+      have hcons := consume_data c.back c.back.data.length h.2
+      have hwf := wf_consume c.back c.back.data.length h.2
+      have hd0 : (c.back.consume c.back.data.length).data = [] := by rw [hcons]; simp
+      have ha0 : (c.back.consume c.back.data.length).availData = 0 := by
+        obtain ⟨a, b, c'⟩ := hwf
+        simp only [Buffer.availData]; rw [hd0] at c'; simp at c'; omega
+      simp only [ha0, if_true]
+      exact hd0
+
 end Sozu.Channel
